@@ -6,7 +6,7 @@ PID = "C09"
 
 
 def scenarios(rng, tier):
-    sc = T.fam_expiry(rng) + T.fam_auth(rng)[1:3]
+    sc = T.fam_expiry(rng) + T.fam_auth(rng)[1:3] + T.fam_staleboot(rng)
     sc += T.fam_random(rng, 10 if tier == "quick" else 120, cfgs=(T.CFG_B, T.CFG_F, T.CFG_D))
     if tier == "thorough":
         for _ in range(2):
